@@ -203,11 +203,26 @@ impl TypeCheckRep {
     }
 }
 
-// When comparing TypeCheckReps, we should not really ignore the
-// predicate, but trait objects are not comparable.  So we approximate
-// using a coarser comparison that is modulo the predicates.
+// Trait objects are not comparable, so predicates are compared by
+// identity: two checks are equal when they have the same type, the
+// same indirect specification and the same predicate object (a clone
+// of the Rc is the same predicate).  The set of examined checks relies
+// on this: a check that differs from an examined one in its predicate
+// or indirect specification has not been examined.
+impl TypeCheckRep {
+    fn pred_id(&self) -> usize {
+        match &self.pred {
+            None => 0,
+            Some(p) => Rc::as_ptr(p) as *const () as usize,
+        }
+    }
+}
 impl PartialEq for TypeCheckRep {
-    fn eq(&self, other: &Self) -> bool { *self.typ == *other.typ }
+    fn eq(&self, other: &Self) -> bool {
+        *self.typ == *other.typ
+            && self.indirect == other.indirect
+            && self.pred_id() == other.pred_id()
+    }
 }
 
 impl PartialOrd for TypeCheckRep {
@@ -215,7 +230,12 @@ impl PartialOrd for TypeCheckRep {
 }
 impl Eq for TypeCheckRep {}
 impl Ord for TypeCheckRep {
-    fn cmp(&self, other: &Self) -> Ordering { (*self.typ).cmp(&*other.typ) }
+    fn cmp(&self, other: &Self) -> Ordering {
+        (*self.typ)
+            .cmp(&*other.typ)
+            .then(self.indirect.cmp(&other.indirect))
+            .then(self.pred_id().cmp(&other.pred_id()))
+    }
 }
 
 impl std::fmt::Debug for TypeCheckRep {
